@@ -45,3 +45,16 @@ package attachment
 //@   focus inside: sorted sep fresh idx cur empty0 segsInside bound nonempty
 //@   focus ascending: inside cur segsInside empty0 sep fresh idx bound nonempty
 //@   focus none_omitted: dom entries2 cur segsInside sep fresh idx bound nonempty sorted
+
+// ---------------------------------------------------------------------------------------------
+// C10 / C19: the default file handler. Called after every handled frame and once more when the session ends
+// (connection.run's deferred call, with nothing known about the progress record then).
+// ---------------------------------------------------------------------------------------------
+//@ spec nosep(s string) bool = allbytes(b, s, b != '/' && b != '\\')
+//@ func (*fileEvent).OnEvent
+//@   requires C10.progress: progress != nil
+//@   requires C10.live: progress.ProgressStage != ProgressStageSuccessQuit && progress.ProgressStage != ProgressStageFailQuit ==> progress.ExtensionFields.RecentTerminalMessage != nil && progress.ExtensionFields.RecentTerminalMessage.Header != nil && progress.ExtensionFields.RecentTerminalMessage.Header.Property != nil
+//@   requires C10.chunk: progress.ProgressStage == ProgressStageStreamData || progress.ProgressStage == ProgressStageSupplementary ==> progress.ExtensionFields.CurrentPackage != nil
+//@   requires C10.records: forallkey(k, progress.Record, progress.Record[k] != nil)
+//@   precall WriteFile C19.path: len(arg0) == 3 + len(phone) + len(name) && arg0[0] == '.' && arg0[1] == '/' && forall(i, 0, len(phone), arg0[2+i] == phone[i]) && arg0[2+len(phone)] == '/' && forall(i, 0, len(name), arg0[3+len(phone)+i] == name[i])
+//@   precall WriteFile C19.confined: nosep(name) && name != "" && name != "." && name != ".."
